@@ -138,14 +138,16 @@ def _oracle_job(pp, job):
                     if (se[0] == "ok") != (pall[0] == "ok"):
                         # the registered finding is exactly: parse_all skips trailing *ignorable text* that the appended
                         # StringEnd does not know about - the unparsed tail is then not blank
+                        # the registered finding is exactly: the `+ StringEnd()` wrapper does not know expr's
+                        # ignorables (parse_all pre-parses with them) - recognised by giving the wrapper those
+                        # ignorables and seeing the difference disappear
                         sig = None
                         if has_ign and pall[0] == "ok" and se[0] == "exc":
-                            try:
-                                end = root._parse(parsed, 0)[0]
-                                if parsed[end:].strip(" \t\r\n") != "":
-                                    sig = "parse_all_vs_stringend_ignorables"
-                            except Exception:  # noqa
-                                pass
+                            w = fresh() + pp.StringEnd()
+                            for ig in root.ignoreExprs:
+                                w.ignore(ig)
+                            if _res(pp, lambda: w.parse_string(s).as_list()) == pall:
+                                sig = "parse_all_vs_stringend_ignorables"
                         rec("parse_all == (expr + StringEnd())", s, pall, se, sig=sig)
                 # --- scan_string ------------------------------------------------------------------------
                 full = _res(pp, lambda: [(t.as_list(), a, b) for t, a, b in root.scan_string(s)])
